@@ -75,6 +75,12 @@ def gen_plan(rng, tier, idx, opts):
                 delays[2] = delays[0] + 0.3 * Ts                 # three taps on one sample
             delays.sort()
         powers = [-rng.uniform(0, 30) for _ in range(nt)]
+        if nt >= 2 and rng.random() < 0.25:
+            # the taps listed in another order than by increasing delay (e.g. two clusters one after the other): nothing
+            # in the documentation asks for sorted input, and the discretised profile must come out the same
+            order_ = rng.sample(range(nt), nt)
+            delays = [delays[i] for i in order_]
+            powers = [powers[i] for i in order_]
         profile = {"delays": delays, "powers_dB": powers}
     Nr = Nt = 1
     if kind in ("tdlmimo", "sumimo", "mumimo"):
